@@ -717,6 +717,40 @@ def camel(s):
     return parts[0] + ''.join(p[:1].upper() + p[1:] for p in parts[1:])
 
 
+TRAIT_ATOMS = [
+    (r'std::is_same<std::allocator<value_ty>,\s*A>::value', 'p.isStdAlloc'),
+    (r'(?:std::allocator_traits<A>|AT)::propagate_on_container_copy_assignment::value', 'p.pocca'),
+    (r'(?:std::allocator_traits<A>|AT)::propagate_on_container_move_assignment::value', 'p.pocma'),
+    (r'(?:std::allocator_traits<A>|AT)::propagate_on_container_swap::value', 'p.pocs'),
+    (r'(?:std::allocator_traits<A>|AT)::is_always_equal::value', 'p.alwaysEq'),
+    (r'allocations_are_movable<A>::value', '(allocationsAreMovable p)'),
+    (r'allocations_are_swappable<A>::value', '(allocationsAreSwappable p)'),
+]
+
+
+def trait_expr(text, what):
+    """a compile-time Boolean over allocator traits (||, &&, !, parentheses, `#ifdef GCH_LIB_IS_ALWAYS_EQUAL` clauses) as a Lean
+    Bool over PolicyEnv `p`; anything else is refused"""
+    t = norm(text)
+    for pat, rep in TRAIT_ATOMS:
+        t = re.sub(pat, rep, t)
+
+    def guarded(m):
+        op, clause = m.group(1), m.group(2).strip()
+        if op == '||':
+            return ' || (p.libAlwaysEq && %s)' % clause
+        if clause.startswith('!'):
+            return ' && !(p.libAlwaysEq && %s)' % clause[1:].strip()
+        return ' && (!p.libAlwaysEq || %s)' % clause
+    t = re.sub(r'#ifdef GCH_LIB_IS_ALWAYS_EQUAL\s*(\|\||&&)\s*(.*?)\s*#endif', guarded, t)
+    t = re.sub(r'\s+', ' ', t).strip()
+    t = re.sub(r'&&\s*!', '&& !', t)
+    left = re.sub(r'p\.\w+|\(allocationsAre\w+ p\)|\|\||&&|!|\(|\)|\s', '', t)
+    if left:
+        raise Untranslatable('%s: outside the translator subset: %r in %s' % (what, left, t))
+    return t
+
+
 def gen_policy(h, report):
     scope = h.class_scope('small_vector_base')
     out = [PRELUDE % 'relocate_with_move, allocations_are_movable, allocations_are_swappable, copy_assign enable_if',
@@ -753,17 +787,13 @@ def gen_policy(h, report):
 
     def alloc_pred(name, trait, lean_field):
         t, ln = struct_text(name)
-        want = norm('''struct %s
-        : bool_constant<std::is_same<std::allocator<value_ty>, A>::value
-                    ||  std::allocator_traits<A>::%s::value
-#ifdef GCH_LIB_IS_ALWAYS_EQUAL
-                    ||  std::allocator_traits<A>::is_always_equal::value
-#endif
-                    >''' % (name, trait))
-        if norm(t) != want:
+        m = re.match(r'struct %s : bool_constant<(.*)>$' % name, norm(t))
+        if not m:
             raise Untranslatable(name + ' changed: ' + norm(t))
+        e = trait_expr(m.group(1), name)
         out.append('/-- %s (hpp:%d) -/' % (name, ln))
-        out.append('def %s (p : PolicyEnv) : Bool :=\n  p.isStdAlloc || p.%s || (p.libAlwaysEq && p.alwaysEq)\n' % (camel(name), lean_field))
+        out.append('def %s (p : PolicyEnv) : Bool :=\n  %s\n' % (camel(name), e))
+        report.setdefault('policy', {})[name] = e
 
     alloc_pred('allocations_are_movable', 'propagate_on_container_move_assignment', 'pocma')
     alloc_pred('allocations_are_swappable', 'propagate_on_container_swap', 'pocs')
@@ -772,18 +802,30 @@ def gen_policy(h, report):
     if len(fs) != 2:
         raise Untranslatable('copy_assign: %d overloads' % len(fs))
     pre = norm(code[code.rfind('template', 0, fs[0]['start']):fs[0]['start']])
-    want = norm('''template <unsigned I, typename AT = alloc_traits,
-                typename std::enable_if<AT::propagate_on_container_copy_assignment::value
-#ifdef GCH_LIB_IS_ALWAYS_EQUAL
-                                    &&! AT::is_always_equal::value
-#endif
-                                        >::type * = nullptr>
-      GCH_CPP20_CONSTEXPR
-      small_vector_base&''')
-    if pre != want:
+    m = re.match(r'template <unsigned I, typename AT = alloc_traits, typename std::enable_if<(.*)>::type \* = nullptr> GCH_CPP20_CONSTEXPR small_vector_base&$', pre)
+    if not m:
         raise Untranslatable('copy_assign enable_if changed: ' + pre)
+    e = trait_expr(m.group(1), 'copy_assign enable_if')
     out.append('/-- enable_if of the propagating copy_assign overload (hpp:%d) -/' % fs[0]['line'])
-    out.append('def copyAssignPropagating (p : PolicyEnv) : Bool :=\n  p.pocca && !(p.libAlwaysEq && p.alwaysEq)\n')
+    out.append('def copyAssignPropagating (p : PolicyEnv) : Bool :=\n  %s\n' % e)
+    report.setdefault('policy', {})['copy_assign'] = e
+    # allocator-extended move constructor: the overload that ignores the allocator argument and delegates to the plain one
+    ctors = [f for f in h.find_functions('small_vector_base', scope)
+             if re.match(r'bypass_tag\s*,\s*small_vector_base<Allocator,\s*I>\s*&&\s*\w*\s*,\s*const alloc_ty\s*&', norm(f['params']))]
+    if len(ctors) != 2:
+        raise Untranslatable('allocator-extended move constructor: %d overloads' % len(ctors))
+    pres = [norm(code[code.rfind('template', 0, f['start']):f['start']]) for f in ctors]
+    ms = [re.match(r'template <unsigned I, typename A = alloc_ty, typename std::enable_if<(.*)>::type \* = nullptr> GCH_CPP20_CONSTEXPR$', q) for q in pres]
+    if not all(ms):
+        raise Untranslatable('allocator-extended move constructor enable_if changed: ' + ' | '.join(pres))
+    e1, e2 = trait_expr(ms[0].group(1), 'alloc-extended move ctor (delegating)'), trait_expr(ms[1].group(1), 'alloc-extended move ctor (general)')
+    if not re.search(r'small_vector_base \(bypass, std::move \(other\)\)', norm(code[ctors[0]['start']:ctors[0]['end']])):
+        raise Untranslatable('the first allocator-extended move constructor no longer delegates to the plain move constructor')
+    out.append('/-- enable_if of the allocator-extended move constructor that delegates to the plain one (hpp:%d) … -/' % ctors[0]['line'])
+    out.append('def ctorMoveAllocDelegates (p : PolicyEnv) : Bool :=\n  %s\n' % e1)
+    out.append('/-- … and of the general one (hpp:%d) -/' % ctors[1]['line'])
+    out.append('def ctorMoveAllocGeneral (p : PolicyEnv) : Bool :=\n  %s\n' % e2)
+    report.setdefault('policy', {})['ctor_move_alloc'] = [e1, e2]
     # maybe_copy/move/swap bodies (allocator_interface)
     ai = h.class_scope('allocator_interface')
     for name, asg in (('maybe_copy', 'alloc_base::operator= (other);'), ('maybe_move', 'alloc_base::operator= (std::move (other));'),
